@@ -52,6 +52,8 @@ def exec_tile(case):
     lon = lon0 + 2 * math.pi * pt["turns"]
     sysname = "planetary" if planetary else "astronomical"
     p = rt.lonlat_to_vec(lon0, lat)
+    # 'up to rounding on shared edges': 1e-9 rad, and never more than a twentieth of a tile's width (levels beyond 26)
+    TOL = min(1e-9, 0.05 * (math.pi / 2) / 2**depth)
     res = {}
     for name, lo, d in (("d", lon, depth), ("d+1", lon, depth + 1), ("base", lon0, depth)):
         with toasty_call("lookup", f"toast_tile_for_point({d}, {lat!r}, {lo!r}, {sysname})"):
@@ -67,13 +69,13 @@ def exec_tile(case):
         dd = rt.ang_dist(c, rt.lonlat_to_vec(tc[:, 0], tc[:, 1])).max()
         if dd > 1e-12 + 1e-14 * depth:
             raise Violation("contains", f"returned tile {pos} carries corners {dd:.3g} rad from that position's geometry")
-        if not rt.point_in_tile(p, c, inc, 1e-9):
-            cont = rt.tiles_containing(depth, p, planetary, 1e-9)
+        if not rt.point_in_tile(p, c, inc, TOL):
+            cont = rt.tiles_containing(depth, p, planetary, TOL)
             raise Violation(
                 "contains",
                 f"{sysname} lookup of (lon {lon!r}, lat {lat!r}) at depth {depth} returned {pos}, which does not contain the point; containing tile(s): {cont[:3]}",
             )
-        on_edge = len(rt.tiles_containing(depth, p, planetary, 1e-9)) > 1
+        on_edge = len(rt.tiles_containing(depth, p, planetary, TOL)) > 1
     # nesting
     t1 = tuple(res["d+1"].pos)
     if t1[0] != depth + 1 or (t1[0] - 1, t1[1] // 2, t1[2] // 2) != pos:
@@ -82,7 +84,7 @@ def exec_tile(case):
     tb = tuple(res["base"].pos)
     if tb != pos:
         cb, incb = rt.tile_corners(*tb, planetary=planetary) if depth >= 1 else (None, None)
-        ok = depth >= 1 and rt.point_in_tile(p, cb, incb, 1e-9) and on_edge
+        ok = depth >= 1 and rt.point_in_tile(p, cb, incb, TOL) and on_edge
         if not ok:
             raise Violation("periodic", f"lon {lon0!r} -> {tb} but lon {lon0!r}+{pt['turns']}*2pi -> {pos} (depth {depth}, lat {lat!r}, {sysname})")
     cls = [sysname, f"depth{depth}" if depth < 6 else "depth>=6", pt["kind"], quadrant_class(pos), "lon-branch%d" % int((lon0 % (2 * math.pi)) // (math.pi / 2))]
@@ -95,6 +97,11 @@ def exec_tile(case):
 
 @st.composite
 def strat_tile(draw, tier):
+    if draw(st.integers(0, 7)) == 0:
+        # very deep lookups next to (not on) a pole: the co-latitude is 1e-5 ... 1e-9 rad
+        colat = 10 ** -draw(st.floats(5, 9))
+        return {"planetary": draw(st.booleans()), "depth": draw(st.integers(24, 32)),
+                "point": {"lon": draw(st.floats(0, 2 * math.pi, allow_nan=False)), "lat": draw(st.sampled_from([1, -1])) * (math.pi / 2 - colat), "turns": 0, "kind": "next-to-pole"}}
     return {"planetary": draw(st.booleans()), "depth": draw(st.one_of(st.integers(0, 8), st.integers(9, 26))), "point": draw(gens.sky_points())}
 
 
